@@ -6,6 +6,7 @@ import (
 	"os"
 	"path/filepath"
 	"regexp"
+	"runtime/debug"
 	"sort"
 	"strings"
 	"sync"
@@ -49,6 +50,7 @@ type JobResult struct {
 	LIAUnsat    int
 	LIAQueries  int
 	LIATime     time.Duration
+	PO          []POOutcome
 	Wall        time.Duration
 	Err         string
 }
@@ -163,17 +165,66 @@ func runJob(ld *Loaded, base *sym.State, j Job, opt Options) JobResult {
 	if j.H.HasParam {
 		args = []sym.Value{smt.BVs(int64(j.Param), 64)}
 	}
+	var poStates []*sym.State
+	if j.H.PO {
+		r.OnEnd = func(e sym.End) {
+			if e.Kind == sym.EndReturn && len(e.St.POThreads) > 0 {
+				poStates = append(poStates, e.St)
+			}
+		}
+	}
 	func() {
 		defer func() {
 			if e := recover(); e != nil {
-				res.Err = fmt.Sprintf("engine panic: %v", e)
+				res.Err = fmt.Sprintf("engine panic: %v\n%s", e, debug.Stack())
 				if opt.Debug {
 					panic(e)
 				}
 			}
 		}()
 		r.Explore(st, j.H.Fn, args)
+		for i, ps := range poStates {
+			r.PanicIsViolation = false
+			out := runPO(ld, r, ps, j, opt, i)
+			res.PO = append(res.PO, out)
+		}
 	}()
+	for _, out := range res.PO {
+		res.Paths += out.Events
+		for _, u := range out.Unsupp {
+			r.EndMsgs["unknown: "+u]++
+		}
+		for _, q := range out.Results {
+			switch {
+			case strings.HasPrefix(q.Name, "witness"):
+				if q.Res == smt.Sat {
+					r.ReachHit[q.Name] = true
+				} else {
+					r.Notes = append(r.Notes, fmt.Sprintf("PO scenario %d: %s is %s (vacuity guard)", out.Scenario, q.Name, q.Res))
+				}
+			case q.Name == "unwinding":
+				if q.Res != smt.Unsat {
+					r.Notes = append(r.Notes, fmt.Sprintf("PO scenario %d: an unrolling/spawn bound is reachable (%s): result is bounded by that depth", out.Scenario, q.Res))
+				}
+			default:
+				r.Obligations++
+				switch q.Res {
+				case smt.Unsat:
+					r.Discharged++
+				case smt.Unknown:
+					r.UnknownObl++
+					r.Notes = append(r.Notes, fmt.Sprintf("PO scenario %d: query %s unknown/timeout", out.Scenario, q.Name))
+				case smt.Sat:
+					lbl := "po"
+					if len(q.Failed) > 0 {
+						lbl = strings.Fields(q.Failed[0])[0]
+					}
+					r.Violations = append(r.Violations, sym.Violation{Label: lbl, Msg: strings.Join(q.Failed, "; "), Pos: q.Name, History: poTraceText(q), Stack: strings.Join(q.Failed, "; ")})
+				}
+				r.Samples = append(r.Samples, fmt.Sprintf("PO scenario %d query %s: %s by %s in %.1fs over %d events", out.Scenario, q.Name, q.Res, q.Solver, q.Time.Seconds(), q.Events))
+			}
+		}
+	}
 	res.Paths = r.Paths
 	res.Ends = r.Ends
 	res.EndMsgs = r.EndMsgs
